@@ -30,6 +30,8 @@ type Case struct {
 	Op2    *Op    `json:"op2,omitempty"`
 	// Keys, when set, replaces the sub-field keys read in every snapshot (keys that differ only in one punctuation character)
 	Keys []string `json:"keys,omitempty"`
+	// Names, when set, replaces the header names read in every snapshot (the Cookie header has its own code path)
+	Names []string `json:"names,omitempty"`
 }
 
 var objects = []struct{ obj, scope string }{
@@ -40,6 +42,7 @@ var names = []string{"Foo", "fOO", "Bar"}
 var keys = []string{"a", "b"}
 
 var defaultKeys = []string{"a", "b"}
+var defaultNames = []string{"Foo", "fOO", "Bar"}
 
 const notset = "\x00"
 
@@ -129,6 +132,9 @@ func program(c Case) string {
 	b.WriteString("sub probe {\n")
 	for _, n := range []string{"Foo", "Bar", "Never-Set"} {
 		fmt.Fprintf(&b, "  unset %s.http.%s;\n", c.Obj, n)
+	}
+	if len(c.Names) > 0 {
+		fmt.Fprintf(&b, "  unset %s.http.%s;\n", c.Obj, c.Names[0])
 	}
 	snap := func(i int) {
 		for _, r := range readNames() {
@@ -368,9 +374,12 @@ func swapRead(r string) string {
 }
 
 func run(c Case) engine.Result {
-	keys = defaultKeys
+	keys, names = defaultKeys, defaultNames
 	if len(c.Keys) > 0 {
 		keys = c.Keys
+	}
+	if len(c.Names) > 0 {
+		names = c.Names
 	}
 	if c.Op2 != nil {
 		return runCross(c)
@@ -495,6 +504,30 @@ func gen17(tier string, emit func(Case)) {
 			}
 			rec2(nil)
 		}
+		// the Cookie request header (own code path: cookies are kept apart, the separator is ";"): every history of up to 3 operations
+		if ob.obj == "req" {
+			cn := []string{"Cookie", "cookie"}
+			var cops []Op
+			for _, n := range cn {
+				for _, k := range []string{"a", "b"} {
+					cops = append(cops, Op{Kind: "setfield", Name: n, Key: k, Value: `"1"`, Val: "1"}, Op{Kind: "setfield", Name: n, Key: k, Value: `"2"`, Val: "2"}, Op{Kind: "unsetfield", Name: n, Key: k})
+				}
+			}
+			cops = append(cops, Op{Kind: "set", Name: "Cookie", Value: `"a=1; b=2"`, Val: "a=1; b=2"}, Op{Kind: "set", Name: "Cookie", Value: `"a=1; b=2; a=3"`, Val: "a=1; b=2; a=3"}, Op{Kind: "unset", Name: "cookie"})
+			var rec3 func(h []Op)
+			rec3 = func(h []Op) {
+				if len(h) > 0 {
+					emit(Case{Obj: ob.obj, Scope: ob.scope, Ops: append([]Op{}, h...), Names: cn})
+				}
+				if len(h) == 3 {
+					return
+				}
+				for _, o := range cops {
+					rec3(append(h, o))
+				}
+			}
+			rec3(nil)
+		}
 		// cross-object histories: 0 or 1 operation on this object, then one operation on each other object; this object's reads must not move
 		for _, ob2 := range objects {
 			if ob2.obj == ob.obj {
@@ -540,6 +573,9 @@ func init() {
 			}
 			if len(c.Keys) > 0 {
 				b.WriteString("||keys")
+			}
+			if len(c.Names) > 0 {
+				b.WriteString("||names")
 			}
 			return b.String()
 		},
